@@ -1110,9 +1110,24 @@ def real_deco(case):
 
 
 def pair_worker(case):
-    """one case in a forked child: a crash of the real code is a result ('CRASH:...')"""
+    return pair_worker_inner(case)
+
+
+def pair_worker_forked(case):
+    """one case in a forked child: a crash of the real code is a result ('CRASH:...').  Forking per case costs about
+    0.3 s CPU: used only after a worker process died (`run_resilient`) and for replays."""
     import pde  # noqa: F401
     return forked_call(pair_worker_inner, case)
+
+
+def run_resilient(func, cases, env):
+    """`run_many`; if an interpreter dies, once more with every case in a forked child, so that the death becomes the
+    result of the case that caused it"""
+    from harness.common.lean import BrokenCheck
+    try:
+        return run_many("harness.c04", func, cases, env=env, procs=16)
+    except BrokenCheck:
+        return run_many("harness.c04", func + "_forked", cases, env=env, procs=16)
 
 
 def pair_worker_inner(case):
@@ -1175,7 +1190,7 @@ def run_pairs(ctx, batch):
     order = list(range(len(cases)))
     rng.shuffle(order)  # balance the worker chunks
     shuffled = [cases[i] for i in order]
-    res_sh = run_many("harness.c04", "pair_worker", shuffled, env={"NUMBA_DISABLE_JIT": "1"}, procs=16)
+    res_sh = run_resilient("pair_worker", shuffled, {"NUMBA_DISABLE_JIT": "1"})
     results = [None] * len(cases)
     for i, r in zip(order, res_sh):
         results[i] = r
@@ -1918,6 +1933,10 @@ def real_heap(case):
 
 
 def heap_worker(case):
+    return real_heap(case)
+
+
+def heap_worker_forked(case):
     import pde  # noqa: F401
     return forked_call(real_heap, case)
 
@@ -2030,7 +2049,7 @@ def jit_worker(item):
     """one process pool for everything that needs the JIT: compiled histories, compiled heap histories and the
     heap-dependence monitor on compiled operators"""
     if item.get("kind") == "heap":
-        return heap_worker(item)
+        return heap_worker_forked(item)
     if item.get("kind") == "heapdep":
         import pde  # noqa: F401
         return forked_call(real_heapdep_jit, item)
@@ -2246,7 +2265,7 @@ def run_heap(ctx, batch):
     rng = ctx.rng
     n = ctx.budget(400, 5000)
     cases = [gen_heap_case(rng, ctx.hist) for _ in range(n)]
-    res = run_many("harness.c04", "heap_worker", cases, env={"NUMBA_DISABLE_JIT": "1"}, procs=16)
+    res = run_resilient("heap_worker", cases, {"NUMBA_DISABLE_JIT": "1"})
     pend = []
     for c, r in zip(cases, res):
         if isinstance(r, str):
@@ -2360,9 +2379,29 @@ def _cpu():
     return r.ru_utime + r.ru_stime
 
 
+def _selftest():
+    """the comparison the monitors rest on (reviewer finding 8): elementwise, NaN- and inf-safe"""
+    inf, nan = float("inf"), float("nan")
+    good = [([1e18, 1.0], [1e18, 1.0]), ([inf, 1.0], [inf, 1.0]), ([nan, 1.0], [nan, 1.0]), ([1.0], [1.0 + 1e-13]), ([], [])]
+    bad = [([1e18, 1.0], [1e18, 2.0]), ([inf, 1.0], [inf, 2.0]), ([inf], [5.0]), ([inf], [-inf]), ([nan], [1.0]), ([1.0], [nan]),
+           ([4.6e18, 0.0], [4.6e18, 1e3]), ([1.0, 2.0], [1.0]), ([1.0], [1.0 + 1e-6])]
+    for x, y in good:
+        if not (arr_close(x, y) and same_result(x, y)):
+            return f"arr_close/same_result reject equal arrays {x} {y}"
+    for x, y in bad:
+        if arr_close(x, y) or same_result(x, y):
+            return f"arr_close/same_result accept different arrays {x} {y}"
+    if not arr_close([1.0, 5.0], [1.0, 7.0], mask=[True, False]) or arr_close([1.0, 5.0], [2.0, 5.0], mask=[True, False]):
+        return "arr_close ignores its mask"
+    return None
+
+
 def run(ctx):
-    from harness.common.lean import LeanBatch
+    from harness.common.lean import LeanBatch, BrokenCheck
     quiet()
+    err = _selftest()
+    if err:
+        raise BrokenCheck("C04 self-test: " + err)
     legs = os.environ.get("C04_LEGS", "pairs,heap,histories").split(",")  # dev only: subset of the legs (the run then ends as BROKEN-CHECK)
     batch = LeanBatch(ctx.workdir)
     t0, c0 = time.time(), _cpu()
@@ -2411,10 +2450,21 @@ def search(ctx, broken):
             prefer.append(c)
     cases = prefer[:400] + [gen_req_pair(rng, nohist) for _ in range(ctx.budget(2500, 10000))] \
         + [gen_interp_pair(rng, nohist) for _ in range(600)] + [gen_nobc_pair(rng, nohist) for _ in range(300)]
-    res = run_many("harness.c04", "pair_worker", cases, env={"NUMBA_DISABLE_JIT": "1"}, procs=16)
+    res = run_resilient("pair_worker", cases, {"NUMBA_DISABLE_JIT": "1"})
     found = []
     for c, r in zip(cases, res):
-        if isinstance(r, str) or "error" in r or "cached_ok" not in r:
+        if isinstance(r, str):
+            if r.startswith("CRASH"):
+                found.append({"leg": "search:" + c["kind"], "case": slim(c), "observed": {"symptom": "crash", "outcome": r[:300]},
+                              "expected": {"a_result": True}, "what": "the interpreter dies",
+                              "key": {"call_site": c["kind"], "symptom": "the interpreter dies (crash of the real code)"}})
+            continue
+        if r.get("one_sided"):
+            found.append({"leg": "search:" + c["kind"], "case": slim(c), "observed": {"symptom": "one_sided_exception", "outcomes": r["one_sided"]},
+                          "expected": {"cached_and_fresh_calls_fail_alike": True}, "what": "exception on one side only",
+                          "key": {"call_site": c["kind"], "symptom": "exception in the cached or the fresh call only"}})
+            continue
+        if "error" in r or "cached_ok" not in r:
             continue
         ctx.monitor_evals += 1
         if not r["cached_ok"] or (r.get("shared") and not r["sem_eq"]):
@@ -2472,7 +2522,7 @@ def replay(ctx, rep):
         return bool(r["same"])
     if case.get("kind") == "heap":
         jit = bool(case.get("jit")) or leg == "heap:jit"
-        r = _iso("heap_worker", case, jit)
+        r = _iso("heap_worker_forked", case, jit)
         if isinstance(r, str):
             print("the real code died or raised:", r[-600:])
             return False
@@ -2489,7 +2539,7 @@ def replay(ctx, rep):
         print(json.dumps(res, default=str)[:2000])
         return not res.get("heap_dep")
     if case.get("kind") in ("req", "interp", "nobc"):
-        res = _iso("pair_worker", case, False)
+        res = _iso("pair_worker_forked", case, False)
         if isinstance(res, str):
             print("worker exception:", res[-600:])
             return False
